@@ -386,7 +386,12 @@ func (s *Rtmp2MpegtsRemuxer) feedVideo(msg base.RtmpMsg) {
 }
 
 func (s *Rtmp2MpegtsRemuxer) feedAudio(msg base.RtmpMsg) {
-	if len(msg.Payload) <= 2 {
+	// aac的包头是2字节，opus的包头只有1字节（1字节的opus包是合法的，比如DTX帧）
+	headerLen := 2
+	if msg.AudioCodecId() == base.RtmpSoundFormatOpus {
+		headerLen = 1
+	}
+	if len(msg.Payload) <= headerLen {
 		Log.Warnf("[%s] rtmp msg too short, ignore. header=%+v, payload=%s", s.uk, msg.Header, hex.Dump(msg.Payload))
 		return
 	}
